@@ -286,6 +286,15 @@ def run(prog, check):
     # ---- R4 ----------------------------------------------------------------------------------------
     check_guards(prog, check)
     check.floor('C11.R1', 8)
+    # a persisting arithmetic error stops the solve: no commit is reachable from a handler that stepped over an evaluation
+    # error in the same sweep (same search as C02.R5)
+    from ..solver_model import stepped_over_errors
+    for h_, ok_, wit_ in stepped_over_errors(sw):
+        ty_ = unparse(h_.ast.type) if h_.ast.type is not None else 'bare'
+        check.ob('C11.R2', '%s::persisting-error-stops-the-solve(%s)' % (f.key, ty_), ok_, sw.where(h_),
+                 'after an evaluation error in the last sweep the period is not committed (a value error is raised)' if ok_ else
+                 'a period is committed although an evaluation error was stepped over in its last sweep' + wit_,
+                 'a persistent division by zero in an equation that is not the last one of the block')
     check.floor('C11.R2', 3)
     check.floor('C11.R3', 8)
     check.floor('C11.R4', 10)
